@@ -88,7 +88,7 @@ def hist_to_schedule(fam, hist, name):
         he = event_to_harness(e)
         if he["ev"] == "EndBlock":
             events.append(dict(ev="StakingEndBlock"))
-        if he["ev"] in ("Unbond", "Rebond", "NativeDelegate", "NativeUndelegate"):
+        if he["ev"] in ("Unbond", "Rebond", "Remove", "NativeDelegate", "NativeUndelegate"):
             continue  # environment steps of the simplified staking model have no exact counterpart on the real x/staking
         events.append(he)
     return dict(name=name, family="tlc:" + fam, cfg=fj["cfg"], events=events, probes=["liveness", "claimAll", "queries", "redeleg", "supply"], every=1)
